@@ -1,8 +1,8 @@
 --------------------------------- MODULE XformStmts ---------------------------------
 (* M level of the AST rewrite for the other statements that bind a variable or end an     *)
 (* activation (transform.PteraTransformer: visit_AugAssign, visit_AnnAssign, visit_NamedExpr, *)
-(* visit_For + generate_interactions, visit_ExceptHandler, visit_Import(From), visit_Return;  *)
-(* there is no visit_With and no rewrite of the end of the body), in the action vocabulary of  *)
+(* visit_For + generate_interactions, visit_With, visit_ExceptHandler, visit_Import(From),      *)
+(* visit_Return; there is no rewrite of the end of the body), in the action vocabulary of  *)
 (* Xform.tla, plus                                                                          *)
 (*     next              a loop iteration begins: the iteration value <<"V">> arrives        *)
 (*     aug               the in-place / binary operation of an augmented assignment          *)
@@ -51,7 +51,7 @@ After(I, v, src) == IF Instr(I, v) THEN << <<"interact", v, "none", src>>, <<"re
 \* generate_interactions(target): names, tuples / lists of targets, a starred name; stores into objects (attribute,
 \* subscript) are not variable bindings.  LoopTargets = "names-only" is the tree before fix d4bbee3: anything but
 \* names and tuples of names raised NotImplementedError and the whole function could not be instrumented.
-CONSTANT LoopTargetsSupported
+CONSTANTS LoopTargetsSupported, WithRewritten
 RECURSIVE GenI(_, _, _)
 GenI(t, src, I) ==
   CASE t.t = "name" -> After(I, t.v, src)
@@ -69,7 +69,7 @@ X2(st, I) ==
     [] st.s = "walrus" -> PyEval(st.e) \o (IF Instr(I, st.v) THEN << <<"interact", st.v, "none", <<"V">>>> >> ELSE <<>>) \o << <<"bind", st.v, <<"V">>>> >>
     [] st.s = "for" -> LET g == GenI(st.t, <<"V">>, I) IN IF NotImpl(g) THEN << <<"notimplemented">> >> ELSE Py2(st) \o g
     [] st.s = "except" -> Py2(st) \o (IF st.name = "" THEN <<>> ELSE After(I, st.name, <<"E">>))
-    [] st.s = "with" -> Py2(st)                                            \* no visit_With
+    [] st.s = "with" -> Py2(st) \o (IF WithRewritten /\ st.t # "" THEN After(I, st.t, <<"W">>) ELSE <<>>)   \* visit_With since fix 2ab3d3a
     [] st.s = "import" -> Py2(st) \o After(I, st.name, <<"M">>)
     [] st.s = "return" -> PyEval(st.e) \o (IF Instr(I, "#value") THEN << <<"interact", "#value", "none", <<"V">>>> >> ELSE <<>>) \o << <<"return", <<"V">>>> >>
     [] st.s = "falloff" -> Py2(st)                                         \* nothing is appended to the body
